@@ -396,6 +396,17 @@ func init() {
 		Variant{Name: "intra-proxy branch in early-return style", Property: "C15", File: "interceptor/translation_interceptor.go", Benign: true,
 			Old: "\t\terr := handler(srv, ss)\n\t\tif err != nil {\n\t\t\ti.logger.Error(\"grpc handler with error: %v\", tag.Error(err))\n\t\t}\n\t\treturn err\n", New: "\t\tif err := handler(srv, ss); err != nil {\n\t\t\ti.logger.Error(\"grpc handler with error: %v\", tag.Error(err))\n\t\t\treturn err\n\t\t}\n\t\treturn nil\n"},
 	)
+	// ---- round 14
+	addVariants(
+		Variant{Name: "tracker entry fetched without comma-ok and tested against nil", Property: "C08", File: "proxy/stream_tracker.go", Benign: true,
+			Old: "\tif stream, exists := st.streams[id]; exists {\n\t\tstream.SenderDebug = info\n\t\tstream.LastSeen = time.Now()\n\t}\n", New: "\tstream := st.streams[id]\n\tif stream == nil {\n\t\treturn\n\t}\n\tstream.SenderDebug = info\n\tstream.LastSeen = time.Now()\n"},
+		Variant{Name: "tracker entry used under a test of the snapshot instead of the entry", Property: "C08", File: "proxy/stream_tracker.go",
+			Old: "\tif stream, exists := st.streams[id]; exists {\n\t\tstream.SenderDebug = info\n\t\tstream.LastSeen = time.Now()\n\t}\n", New: "\tstream := st.streams[id]\n\tif info != nil {\n\t\tstream.SenderDebug = info\n\t\tstream.LastSeen = time.Now()\n\t}\n", Expect: "O8.20"},
+		Variant{Name: "IsIntraProxy as a one-line comparison with the marker", Property: "C12", File: "common/intra_headers.go", Benign: true,
+			Old: "\tif md, ok := metadata.FromIncomingContext(ctx); ok {\n\t\tif vals := md.Get(IntraProxyHeaderKey); len(vals) > 0 && vals[0] == IntraProxyHeaderValue {\n\t\t\treturn true\n\t\t}\n\t}\n\treturn false\n", New: "\tvals := metadata.ValueFromIncomingContext(ctx, IntraProxyHeaderKey)\n\treturn len(vals) > 0 && vals[0] == IntraProxyHeaderValue\n"},
+		Variant{Name: "IsIntraProxy true for any value of the header", Property: "C12", File: "common/intra_headers.go",
+			Old: "\tif md, ok := metadata.FromIncomingContext(ctx); ok {\n\t\tif vals := md.Get(IntraProxyHeaderKey); len(vals) > 0 && vals[0] == IntraProxyHeaderValue {\n\t\t\treturn true\n\t\t}\n\t}\n\treturn false\n", New: "\tvals := metadata.ValueFromIncomingContext(ctx, IntraProxyHeaderKey)\n\treturn len(vals) > 0\n", Expect: "O12.15"},
+	)
 	// ---- C06
 	ast := "proxy/admin_stream_transfer.go"
 	addVariants(
